@@ -67,6 +67,18 @@ CHECKS = {
                 tech="TLC trace validation of single-fault programs (error line must be the spec's fault line, also after shifting by 7 lines) and message placements",
                 text="5 base programs x every insertion position x 16 single-line faults, each built as is and shifted by 7 lines: TLC requires an error whose text contains the specification's fault line as an integer token both times; 768 placements of .message/.warning/.error in and around taken/untaken branches: order, text, own line numbers, unchanged images.",
                 note=TB + "; messages from macro bodies and lines inside included files excluded"),
+    "C16": dict(level="exploration", ref="3 C16",
+                tech="bounded-exhaustive product of heads x operand dictionary defined by Api.tla, supervised execution, TLC (Trace_Api) checks completeness and accepts only ok/err",
+                text="Every single-line program `head op, op(, op)` over the 158 heads and the 46-entry operand dictionary that Api.tla defines (exported by TLC; ~3.4e5 programs with up to two operands in quick, 1.5e7 with three in thorough) plus token soups and seeded byte/token/line mutations of valid programs up to 64 KiB are built in supervised worker processes (watchdog 10 s, 2 GiB address space); TLC checks that every group of the enumeration is complete and that every outcome is ok or err. Time, memory and crashes are observed by the operating system, not modelled - hence exploration, not model checking.",
+                note=TB + "; harness profile release + overflow-checks"),
+    "C17": dict(level="model_checking", ref="3 C17",
+                tech="TLC replay of recorded build sessions (sequential histories, TLC-generated stage interleavings with real threads, unsynchronised threads, fresh processes) through the actions of Api.tla; MC_Api",
+                text="12 programs sharing macro, symbol, alias and device names (valid, failing in each stage, with messages): every sequential history up to length 3 (thorough 4), all 70 TLC-generated schedules of two stage-gated builds x ordered pairs, seeded schedules of three builds, 16 unsynchronised threads x 200 builds, one history in 4 fresh processes. Every session is replayed through Start/Stage/End of Api.tla, where End is only enabled with the result the program has alone in a fresh process. MC_Api model-checks Independent and shows that a variant with a shared device selection violates it.",
+                note=TB + "; results compared by digest; gating through the public stage functions"),
+    "C18": dict(level="model_checking", ref="3 C18",
+                tech="TLC trace validation of recorded runs of the real binary (argv, exit status, files before/after, lexed HEX records) against Cli!Allowed with the IHex reader",
+                text="11 sources (valid, code+EEPROM, EEPROM only, empty, > 64 KiB, failing in parse/pass 2/limits/include, missing file) x three source path forms x six output locations for each of -o and -e (default, writable, existing file, missing parent, a directory, /dev/full) x -v: the binary built from /repo is run in a scratch tree, and TLC requires: failed build => nothing created or altered, something printed, exit status non-zero; successful build => flash file decodes (IHex reader) to exactly the library's image, EEPROM file iff non-empty image, nothing else changes, exit 0 unless an output is unwritable.",
+                note=TB + "; library images obtained in-process from build_file with the same include set"),
 }
 
 TITLES = {}
